@@ -2,14 +2,16 @@ module verif/harness
 
 go 1.24.2
 
-require github.com/wizenheimer/comet v0.0.0
+require (
+	github.com/clipperhouse/uax29/v2 v2.2.0
+	github.com/wizenheimer/comet v0.0.0
+	golang.org/x/text v0.30.0
+)
 
 require (
 	github.com/RoaringBitmap/roaring v1.9.4 // indirect
 	github.com/bits-and-blooms/bitset v1.12.0 // indirect
-	github.com/clipperhouse/uax29/v2 v2.2.0 // indirect
 	github.com/x448/float16 v0.8.4 // indirect
-	golang.org/x/text v0.30.0 // indirect
 )
 
 replace github.com/wizenheimer/comet => /repo
